@@ -53,10 +53,12 @@ def gen_acc_cases(rng, tier):
         bgs = [bytes(size), b'\xff' * size] + [rng.bytes(size) for _ in range(nbg)]
         ps = m['params']
         sp = spec.get(m['name'], [])
+        spec_masks = sorted(set(int(s_['mask']) for s_ in sp if s_['mask'] != '-'))
         if len(ps) == 0:
             argsets = [(0, 0)]
         elif len(ps) == 1:
-            argsets = [(v, 0) for v in values_for(rng, ps[0], tier, exb)]
+            # getters that take a mask (getFlag(mask)): every enumerator of the layout table is an argument
+            argsets = [(v, 0) for v in sorted(set(values_for(rng, ps[0], tier, exb)) | set(spec_masks))]
         else:
             masks = sorted(set(int(s['mask']) for s in sp if s['mask'] != '-')) or [1 << k for k in range(min(ps[0], 16))]
             argsets = [(k, v) for k in masks for v in ((0, 1) if ps[1] == 1 else values_for(rng, ps[1], tier, 4))]
@@ -79,6 +81,16 @@ def gen_acc_cases(rng, tier):
                             a2 = 0 if len(ps) == 1 else 1
                             lines.append('ACC %d %d %d %d %s' % (m['cls'], m['id'], v, a2, hx(bg)))
                             meta.append((v, a2, bg))
+        if spec_masks:
+            # mask-taking accessors: images with exactly one bit set / exactly one bit cleared, for every bit of the object - a
+            # multi-bit mask (segmentation field, parity bits) meets every partial state of its field
+            for b in range(8 * size):
+                one = bytearray(size); one[b // 8] = 1 << (b % 8)
+                allbut = bytearray(b'\xff' * size); allbut[b // 8] ^= 1 << (b % 8)
+                for img in (bytes(one), bytes(allbut)):
+                    for (a1, a2) in ([(k, v) for k in spec_masks for v in (0, 1)] if len(ps) == 2 else [(k, 0) for k in spec_masks]):
+                        lines.append('ACC %d %d %d %d %s' % (m['cls'], m['id'], a1, a2, hx(img)))
+                        meta.append((a1, a2, img))
         for bg in bgs:
             for (a1, a2) in argsets:
                 lines.append('ACC %d %d %d %d %s' % (m['cls'], m['id'], a1, a2, hx(bg)))
@@ -126,6 +138,52 @@ def coq_failing_labels():
     import re
     return re.findall(r'"([^"]+)"', r.stdout)
 
+def composite_mask_judge(res, idx, spec, layout_only):
+    meths = []
+    for m in idx['methods']:
+        masks = sorted(set(int(s_['mask']) for s_ in spec.get(m['name'], []) if s_['mask'] != '-'))
+        if len(m['params']) == 2 and m.get('writes') and len(masks) >= 2:
+            meths.append((m, masks))
+    if not meths:
+        return 0
+    first, plan = [], []
+    for m, masks in meths:
+        size = m['size']
+        pairs = [(a, b) for i, a in enumerate(masks) for b in masks[i + 1:]]
+        # adjacent bits first (multi-bit fields are contiguous), then a sample of the others
+        pairs.sort(key=lambda ab: (bin(ab[0] | ab[1]).count('1'), abs(ab[0].bit_length() - ab[1].bit_length())))
+        imgs = [bytes(size), b'\xff' * size]
+        for b in range(8 * size):
+            one = bytearray(size); one[b // 8] = 1 << (b % 8); imgs.append(bytes(one))
+        lines = []
+        for (a, b) in pairs[:12]:
+            for v in (0, 1):
+                for img in imgs:
+                    lines.append('ACC %d %d %d %d %s' % (m['cls'], m['id'], a, v, hx(img)))
+                    lines.append('ACC %d %d %d %d %s' % (m['cls'], m['id'], a | b, v, hx(img)))
+                    plan.append((m, a, b, v, img))
+        first.append(Case('comp-' + m['name'], lines, {}))
+    out1 = run_harness(first, tag='comp1')
+    flat1 = [l for c in first for l in out1.get(c.cid, [])]
+    if len(flat1) != 2 * len(plan):
+        return 0
+    second = Case('comp2', ['ACC %d %d %d %d %s' % (m['cls'], m['id'], b, v, flat1[2 * i].split()[1]) for i, (m, a, b, v, img) in enumerate(plan) if flat1[2 * i].startswith('A x')], {})
+    out2 = run_harness([second], tag='comp2').get('comp2', [])
+    n = 0; j = 0
+    for i, (m, a, b, v, img) in enumerate(plan):
+        if not flat1[2 * i].startswith('A x'):
+            continue
+        seq = out2[j] if j < len(out2) else 'MISSING'; j += 1
+        both = flat1[2 * i + 1]
+        if seq.split()[:2] != both.split()[:2]:
+            n += 1
+            if n <= 2:
+                res.violation('%s%s(mask %d, %d) on memory image %s gives "%s", but setting mask %d and then mask %d gives "%s": a multi-bit mask does not set / clear exactly its bits' % (
+                    'wire layout: ' if layout_only else 'field independence: ', m['name'], a | b, v, hx(img), both, a, b, seq),
+                    'CASE replay\nACC %d %d %d %d %s\n' % (m['cls'], m['id'], a | b, v, hx(img)), True, 'judge')
+    res.cov['composite_mask_comparisons'] = j
+    return n
+
 def run_acc(res, rng, layout_only):
     cases, idx = gen_acc_cases(rng, res.tier)
     impl = run_harness(cases)
@@ -172,6 +230,10 @@ def run_acc(res, rng, layout_only):
                 a1, a2, bg = c.meta['args'][k]
                 what = ('%s on memory image %s with argument(s) %d %d: library gives "%s", the layout prescribes "%s"' % (c.meta['method']['name'], hx(bg), a1, a2, got, e))
                 res.violation(('wire layout: ' if layout_only else 'field independence: ') + what, 'CASE replay\n' + c.lines[k] + '\n# expected per layout: ' + e + '\n', True, 'judge')
+    # composite masks: set(mA | mB, v) must equal set(mA, v) followed by set(mB, v) - the single-bit behaviour is what the layout table
+    # prescribes (checked above), a multi-bit enumerator (segmentation field, parity bits) must be its composition
+    ncomp = composite_mask_judge(res, idx, spec, layout_only)
+    njudge += ncomp
     an = [(c, l) for c in cases for l in impl.get(c.cid, []) if l.startswith(ANOMALY)]
     for c, l in an[:2]:
         res.violation('accessor run: ' + l, c.text(), True, 'judge')
